@@ -1,6 +1,6 @@
 (* C29 — Type compatibility checks match the specification.
    Property theorems only: each closed by `exact <lemma>`, pinned by Check, followed by Print Assumptions. *)
-From ApolloVerif Require Import Base.Chars Ast.TypeRef Exec.Compat Exec.CompatProofs.
+From ApolloVerif Require Import Base.Chars Ast.Ast Ast.TypeRef Exec.Compat Exec.CompatProofs.
 
 (* Type::is_assignable_to is AreTypesCompatible, for all types (any nesting) *)
 Theorem C29_assignable : forall v l,
@@ -66,21 +66,21 @@ Definition ex_types : list (str * compat_tydef) :=
   [(ex_A, CtObject [ex_I]); (ex_I, CtInterface []); (ex_U, CtUnion [ex_A])].
 
 Example C29_nonvacuous :
-  compat_is_assignable_to (TrNonNullList (TrNonNullNamed ex_A)) (TrList (TrNamed ex_A)) = true /\
-  compat_is_assignable_to (TrList (TrNamed ex_A)) (TrList (TrNonNullNamed ex_A)) = false /\
-  compat_usage_allowed {| cv_ty := TrNamed ex_A; cv_default := Some CvOther |}
-                       {| cu_ty := TrNonNullNamed ex_A; cu_default := None |} = true /\
-  compat_usage_allowed {| cv_ty := TrNamed ex_A; cv_default := Some CvNull |}
-                       {| cu_ty := TrNonNullNamed ex_A; cu_default := None |} = false /\
-  compat_null_default_class {| cv_ty := TrNamed ex_A; cv_default := Some CvOther |}
-                            {| cu_ty := TrNonNullNamed ex_A; cu_default := None |} = false /\
-  compat_valid_impl_field_type (compat_is_subtype ex_types) (TrList (TrNamed ex_I)) (TrNonNullList (TrNonNullNamed ex_A)) = true /\
-  compat_valid_impl_field_type (compat_is_subtype ex_types) (TrNamed ex_U) (TrNamed ex_I) = false /\
+  compat_is_assignable_to (TNonNullList (TNonNullNamed ex_A)) (TList (TNamed ex_A)) = true /\
+  compat_is_assignable_to (TList (TNamed ex_A)) (TList (TNonNullNamed ex_A)) = false /\
+  compat_usage_allowed {| cv_ty := TNamed ex_A; cv_default := Some CvOther |}
+                       {| cu_ty := TNonNullNamed ex_A; cu_default := None |} = true /\
+  compat_usage_allowed {| cv_ty := TNamed ex_A; cv_default := Some CvNull |}
+                       {| cu_ty := TNonNullNamed ex_A; cu_default := None |} = false /\
+  compat_null_default_class {| cv_ty := TNamed ex_A; cv_default := Some CvOther |}
+                            {| cu_ty := TNonNullNamed ex_A; cu_default := None |} = false /\
+  compat_valid_impl_field_type (compat_is_subtype ex_types) (TList (TNamed ex_I)) (TNonNullList (TNonNullNamed ex_A)) = true /\
+  compat_valid_impl_field_type (compat_is_subtype ex_types) (TNamed ex_U) (TNamed ex_I) = false /\
   UnionMembersAreObjects ex_types.
 Proof.
   repeat split; try (vm_compute; reflexivity).
   intros u members m Hu Hm. unfold ex_types in *. cbn [compat_types_get] in Hu.
-  destruct (tref_name_eqb u ex_A); [discriminate|]. destruct (tref_name_eqb u ex_I); [discriminate|].
-  destruct (tref_name_eqb u ex_U); [|discriminate]. injection Hu as <-.
+  destruct (streq u ex_A); [discriminate|]. destruct (streq u ex_I); [discriminate|].
+  destruct (streq u ex_U); [|discriminate]. injection Hu as <-.
   destruct Hm as [<-|[]]. exists [ex_I]. reflexivity.
 Qed.
